@@ -20,6 +20,7 @@ FIXED = [
  ("C18", "without a host connects to localhost", "ldap:/// and ldaps:/// panicked ('unexpected None from url.host_str()'): signatures C18.panic|ldap/host-absent/.../panic"),
  ("C03", "does not fit 32 bits is not truncated", "a result code that does not fit 32 bits (ENUMERATED of five or more significant octets, e.g. 0x1_0000_0000) was truncated with `as u32`: the caller saw rc=0, success() / non_error() accepted it: signature C03.helpers|code-beyond-32-bits-reads-as-success"),
  ("C17", "does not fit 32 bits is not truncated", "the same truncation made with_settings() accept a StartTLS response carrying such a code as success and return a usable handle: signatures C17.b|ok-although-establishment-must-fail/CodeWide/*"),
+ ("C18", "IPv6 literal host is a usable TLS server name", "built with the tls-rustls backend, ldaps://[::1] and ldap://[::1] + StartTLS failed with a DNS name error before the handshake, whatever the verification settings (the bracketed host string was handed to ServerName::try_from): signatures C18.connect|ldaps/ipv6/*/failed, C18.tls|ldaps/ipv6/*/ldaps-did-not-open-with-tls, C18.connect|ldap/ipv6/*/starttls/failed (rustls-backend build of the ESTABURL lane; the ESTABTLS lane met it as C17.ok|failed-although-everything-is-in-order/*/no-verify/wrong-name)"),
  ("C18", "ldapi URL with a port is rejected", "ldapi://<path>:3 was accepted and the port ignored: signature C18.reject|ldapi/with-port/accepted"),
 ]
 def h(g):
